@@ -101,9 +101,9 @@ for root, dirs, files in os.walk(REPO):
             lines.append('\t"%s"' % p)
         else:
             lines.append('\t%s "%s"' % (q, p))
-    lines += [")", "", "func init() {", '\tverifbounds.Reg("%s/%s", map[string]int{' % (MOD, rel)]
+    lines += [")", "", "func init() {", '\tverifbounds.Reg("%s/%s", map[string]func() int{' % (MOD, rel)]
     for e in ok_exprs:
-        lines.append('\t\t%s: int(%s),' % (json.dumps(e), e))
+        lines.append('\t\t%s: func() int { return int(%s) },' % (json.dumps(e), e))
         n_expr += 1
     lines += ["\t})", '\tverifbounds.Dir("%s/%s", map[string]string{' % (MOD, rel)]
     for t, e in sorted(directives.items()):
